@@ -20,11 +20,18 @@ let run_array toks =
   | ["get"; sh; idx] ->
     (match get (ramp (parse_list sh)) (parse_list idx) with
      | Some v -> add ("Some " ^ zs v) | None -> add "None")
-  (* the mutable path addresses the element `get` addresses; writing through it changes exactly that position (the ramp's
-     value at an index is its flat position) *)
+  (* the mutable path: the model's [set] (get_mut + write); reported as the element addressed and the flat positions of
+     the data that changed *)
   | ["getmut"; sh; idx] ->
-    (match get (ramp (parse_list sh)) (parse_list idx) with
-     | Some v -> add ("Some " ^ zs v ^ " W" ^ zs v) | None -> add "None")
+    let a = ramp (parse_list sh) in
+    let i = parse_list idx in
+    (match get a i, set a i (ZA.of_int (-1)) with
+     | Some v, Some y ->
+       let changed = List.filteri (fun _ (p, q) -> not (ZA.equal p q)) (List.combine a.adata y.adata)
+                     |> List.map (fun (p, _) -> zs p) in   (* the ramp's value at a position is the position *)
+       add ("Some " ^ zs v ^ " W" ^ S.concat "+" changed)
+     | None, None -> add "None"
+     | _ -> add "MODEL-INCONSISTENT get/set")
   | ["getaxis"; sh; a; i] ->
     (match get_axis (ramp (parse_list sh)) (ZA.of_string a) (ZA.of_string i) with
      | Some v -> add ("Some dims=" ^ string_of_int (List.length v.vshape)) | None -> add "None")
